@@ -117,6 +117,12 @@ fn main() {
         }
         "C03" => {
             umverif::c03::run(&mut rep, "C03");
+            let n = std::env::var("VERIF_REAL_N").ok().and_then(|v| v.parse().ok()).unwrap_or(if thorough { 300 } else { 16 });
+            umverif::real_leg::run(&mut rep, "C03", n, 8);
+            rep.floor("real_migrations_run_under_traffic", if thorough { 150 } else { 8 });
+            rep.floor("real_keys_linearizable", if thorough { 1500 } else { 80 });
+            rep.floor("real_final_states_compared", if thorough { 1500 } else { 80 });
+            rep.assumptions.push("leg B (real_* counters): live resizes over real sockets on a multi-thread runtime (broker HTTP server, coordinator HTTP / TCP clients, proxy listeners, clients over TCP following MOVED); interleavings there come from OS scheduling, histories are ordered by one atomic counter read before the request is written and after the reply is read".to_string());
             rep.finish()
         }
         "C05" => {
